@@ -42,7 +42,9 @@ RULE = (
     "a case is non-trivial if its key (zone class, operation list) is new and it has at least two commits and one reader; "
     "immutability histories: 2..5 write transactions over a 4-level name tree (NS added / removed / node deleted at, above and "
     "below existing names, so glue re-flagging, nested cuts and whole-node deletes occur), readers pinned before and after, "
-    "then every node / rdataset object handed out by every public route of every retained version is attacked"
+    "then every node / rdataset object handed out by every public route of every retained version is attacked; "
+    "aliasing histories: every Rdataset / RRset / rdata list handed to txn.add / txn.replace and every object taken out of "
+    "the writer (txn.get, get_node, iterate_rdatasets) is kept and mutated by its owner after each commit"
 )
 TRUSTED_BASE = [
     "Python reference semantics: a read transaction keeps a reference to its version object",
@@ -1334,7 +1336,7 @@ def generate(ctx: Ctx, scale: int, rng):
         c = gen_immhist(rng, "btree" if i % 3 else "versioned")
         ctx.case(case_key(c), True, sample=c if i < 2 else None)
         eval_case(ctx, c)
-    for i in range(2000 * scale):
+    for i in range(1600 * scale):
         zk = "versioned" if i % 2 == 0 else "btree"
         c = executable(gen_history(rng, zk))
         ctx.case(case_key(c), nontrivial(c), sample=c if len(c["ops"]) <= 12 else None)
